@@ -87,6 +87,9 @@ def make_workload(seed: int, idx: int) -> dict:
     tag = ["en", "EN", "En", "eN"][idx % 4]
     extra = [(("iri", "http://ex.org/s"), ("iri", "http://ex.org/label"), ("lit", "chat", tag, None)),
              (("iri", "http://ex.org/s"), ("iri", "http://ex.org/label"), ("lit", "hello", tag + "-gb" if idx % 3 else tag + "-GB", None))]
+    # ... and a literal whose lexical form is not canonical for its datatype (what a term library does with it is the library's
+    # business - but it has to do the same thing whatever else is going on in the process)
+    extra.append((("iri", "http://ex.org/s"), ("iri", "http://ex.org/count"), ("lit", "02", None, "http://www.w3.org/2001/XMLSchema#integer")))
     if arity == 4:
         extra = [st + (("default",),) for st in extra]
     stmts = extra[:1] + stmts + extra[1:]
